@@ -31,7 +31,7 @@ RULE = ("one run = one (alg, serialisation) cell with seeded key (rare leading-z
 ASSUMPTIONS = [
     "fault-free control configuration: no fault is injected on the wire (DESIGN.md 3/C03: weak fit, stated plainly)",
     "OpenSSL signing randomness is not seeded; rare signature shapes are reached by volume and counted by probes",
-    "with b64=false a payload that is not valid UTF-8 (or, compact attached, not URL-safe) may be refused at serialisation: refusal is accepted, a produced-but-unverifiable token is not",
+    "flattened JSON with b64=false: a payload that is not valid UTF-8 cannot be carried in a JSON string and may be refused at serialisation (refusal accepted, a produced-but-unverifiable token is not); compact with b64=false: every octet string is admissible, and it is attached exactly when it is non-empty and consists of the RFC 7797 section 5.2 URL-safe characters",
     "key sets hold one curve per key type so that 'any key of the right kty' is well defined (mixed case: C14)",
     "reference verifier refjose and OpenSSL primitives are trusted",
 ]
@@ -45,6 +45,11 @@ CELLS = [(a, f) for a in W.SIGN_ALGS for f in W.FORMS]
 
 def _payload(rng: Rng, form: str) -> bytes:
     if form == "c7797":
+        r = rng.random()
+        if r < 0.2:
+            # compact + b64=false: any octet string is admissible, what is not URL-safe travels detached
+            return rng.pick([b"\xff\xfe", b"\x00", b"abc\n", b"abc\r\n", b"\nabc", b"abc\x00", "tr\u00e4iling\n".encode(), b"a b", b"a+b/c=",
+                             rng.bytes_(rng.randrange(1, 40))])
         return W.gen_payload(rng, text_only=True, urlsafe=rng.pick([True, False, None]))
     if form == "f7797":
         return W.gen_payload(rng, text_only=True)
@@ -231,13 +236,24 @@ def _run(rng, tier, index, alg, form, res, tr, ch):
                         want_u["kid"] = key.kid
                 want = [(want_p or None, want_u)]
                 detached = None
-                if form == "c7797" and isinstance(ser, str) and ser.split(".")[1] == "" and payload and prot.get("b64") is False:
-                    detached = payload
-                    res.probe("7797-detached")
+                if form == "c7797" and isinstance(ser, str) and prot.get("b64") is False:
+                    seg = ser.split(".")[1] if ser.count(".") >= 2 else None
+                    safe = bool(payload) and all(c in _URLSAFE for c in payload)
+                    if not all(ord(ch) < 128 and (ord(ch) in _URLSAFE or ch == ".") for ch in ser):
+                        viol("produce:compact-not-url-safe", "compact token with unencoded payload %r contains characters outside the URL-safe set" % payload[:40])
+                    elif safe and seg != payload.decode("ascii"):
+                        viol("produce:urlsafe-payload-not-attached", "URL-safe unencoded payload %r was not attached" % payload[:40])
+                    elif not safe and seg != "":
+                        viol("produce:unsafe-payload-attached", "unencoded payload %r is not URL-safe but was attached" % payload[:40])
+                    if seg == "" and payload:
+                        detached = payload
+                        res.probe("7797-detached")
+                        if not _is_text(payload):
+                            res.probe("7797-detached-binary")
                 if form in ("c7797", "f7797") and prot.get("b64") is False:
                     res.probe("7797-unencoded")
         except Exception as e:
-            text_refusal = form in ("c7797", "f7797")
+            text_refusal = form == "f7797"
             tr.add("produce-refused", label, type(e).__name__)
             if text_refusal and isinstance(e, (UnicodeDecodeError, ValueError)) and not _is_text(payload):
                 res.probe("refused-nonutf8-b64false")
@@ -305,6 +321,9 @@ def _run(rng, tier, index, alg, form, res, tr, ch):
             res.fired("restore")
             check_token(res, tr, label + ".restored", form, restored, payload, None, want, conf, ledger, viol,
                         entries=W.ENTRIES_FOR[form][:1])
+
+
+_URLSAFE = frozenset(b"abcdefghijklmnopqrstuvwxyzABCDEFGHIJKLMNOPQRSTUVWXYZ0123456789-_~")
 
 
 def _is_text(b: bytes) -> bool:
